@@ -973,33 +973,17 @@ def fam_syntax(rnd, n):
     return cases
 
 
-def has_prefix_star(src):
-    """conservative: some `*` is not preceded (spaces skipped) by something that can end an operand, i.e. it may be the
-    indirection operator (recorded finding deref-null-reference: `*e` as assignment/call target with e == null crashes)"""
-    if isinstance(src, str):
-        src = src.encode('latin-1', 'replace')
-    for i, ch in enumerate(src):
-        if ch != 0x2a:
-            continue
-        j = i - 1
-        while j >= 0 and src[j] in b' \t':
-            j -= 1
-        if j < 0 or not (chr(src[j]).isalnum() or src[j] in b')]_"'):
-            return True
-    return False
-
-
 def fam_hostile(rnd, n_mut, n_rand):
     cases = []
     # calibrated on the unchanged tree (3/3 stable, see notes/C15.md): which inputs overflow the 256 KiB coroutine stack
     # although they stay below (or are stopped by) the 300-level depth limit, and the recorded crash reproducers
     CRASHES = {('nest:dict:200', 'coro'), ('nest:leftdeep:20000', 'coro'), ('nest:dots:20000', 'coro'), ('nest:index:20000', 'coro'),
                ('recursion:plain', 'coro'), ('recursion:selfapply', 'coro')}
-    def add(src, tag, modes=('main', 'thread', 'coro'), iso=False):
+    def add(src, tag, modes=('main', 'thread', 'coro'), iso=False, want=None):
         if isinstance(src, str): src = src.encode('latin-1', 'replace')
         for m in modes:
             crash = (tag, m) in CRASHES or tag.startswith('known:')
-            cases.append({'lines': ['dsl_hostile src=%s mode=%s tag=%s%s%s' % (hx(src), m, tag, ' iso=1' if (iso or m == 'coro') else '', ' expect=crash' if crash else '')],
+            cases.append({'lines': ['dsl_hostile src=%s mode=%s tag=%s%s%s' % (hx(src), m, tag, ' iso=1' if (iso or m == 'coro') else '', ' expect=crash' if crash else (' want=' + want if want else ''))],
                           'tags': {'family': 'hostile-' + tag.split(':')[0], 'src': src.decode('latin-1')[:200]}})
     # deep nesting for the parser and the recursive evaluator
     for n in (200, 20000):
@@ -1025,11 +1009,15 @@ def fam_hostile(rnd, n_mut, n_rand):
     # recorded findings outside the model's language (Json.encode) or with undefined behaviour (iterator invalidation)
     add('var a = []\na.add(a)\nJson.encode(a)\n', 'known:cyclic-json', ('main', 'coro'), True)
     add('var d = {}\nd.x = d\nJson.encode(d)\n', 'known:cyclic-json', ('thread',), True)
-    # `*e = v`, `*e += v`, `(*e)(..)`, `(*e).k = v` with e == null: DerefExpression::GetReference dereferences a null Reference::Ptr
+    # `*e = v`, `*e += v`, `(*e)(..)`, `(*e).k = v` with e == null: a script error since fix 45d9f22 (before it
+    # DerefExpression::GetReference dereferenced a null Reference::Ptr); Ref/Deref are not in the model, the outcome class is
+    # checked here (want=value|error)
     for src in ('var x = null\n*x = 1\n', '*this.kc = 1\n', 'var x = null\n*x += 1\n', 'var x = null\n(*x)(1)\n', 'var x = null\n(*x).a = 1\n'):
-        add(src, 'known:deref-null', (rnd.choice(['main', 'thread', 'coro']),), True)
-    for src in ('*null\n', 'var x = 5\n*x = 1\n', 'var x = []\n*x = 1\n', 'var v = 1\nvar p = &v\n*p = 2\nv\n', 'var v = 1\nvar p = &v\n(*p)(1)\n'):
-        add(src, 'deref:neighbour')
+        add(src, 'deref:null', want='error')
+    for src, want in (('*null\n', 'error'), ('var x = 5\n*x = 1\n', 'error'), ('var x = []\n*x = 1\n', 'error'),
+                      ('var v = 1\nvar p = &v\n*p = 2\nv\n', 'value'), ('var v = 1\nvar p = &v\n(*p)(1)\n', 'error'),
+                      ('var d = { a = 1 }\nvar p = &d\n(*p).a = 2\n*p\n', 'value'), ('var v = 3\nvar p = &v\n*p += 4\nv\n', 'value')):
+        add(src, 'deref:neighbour', want=want)
     # mutated programs
     done = 0
     while done < n_mut:
@@ -1047,9 +1035,6 @@ def fam_hostile(rnd, n_mut, n_rand):
             else:
                 q = rnd.randrange(len(src) + 1)
                 src[p:p] = src[min(p, q):max(p, q)][:40]
-        if has_prefix_star(bytes(src)):
-            done -= 1       # would collide with the recorded deref-null crash: draw another one
-            continue
         add(bytes(src), 'mutated', (rnd.choice(['main', 'thread', 'coro']),))
     kw = [b'var ', b'function ', b'if (', b'else ', b' in ', b'=> ', b'use(', b'{{{', b'}}}', b'{{', b'}}', b'/*', b'*/', b'//', b'#',
           b'"', b'\\', b'\n', b'0x', b'1e9', b'5m', b'.5', b'object ', b'apply ', b'import ', b'include ', b'<a>', b'!in ', b'return ', b'throw ', b'try ', b'except ',
@@ -1061,8 +1046,6 @@ def fam_hostile(rnd, n_mut, n_rand):
             src = b''.join(rnd.choice(kw) if rnd.random() < 0.7 else bytes([rnd.randrange(32, 127)]) for _ in range(rnd.randint(1, 25)))
         if b'include' in src or b'library' in src or b'debugger' in src or b'object' in src or b'template' in src or b'apply' in src:
             src = src.replace(b'include', b'inclde').replace(b'library', b'librry').replace(b'debugger', b'debuger').replace(b'object', b'objct').replace(b'template', b'templte').replace(b'apply', b'aply')
-        if has_prefix_star(src):
-            src = src.replace(b'*', b'+')
         add(src, 'random', (rnd.choice(['main', 'thread', 'coro']),))
     return cases
 
@@ -1143,7 +1126,6 @@ def classify(case, detail, impl_lines):
     if 'crash' in detail:
         if 'model=abort:cycle' in detail: return 'cyclic-traversal'
         if 'tag=known:cyclic-json' in detail: return 'cyclic-traversal'
-        if 'tag=known:deref-null' in detail: return 'deref-null-reference'
         if 'hostile' in detail:
             m = re.search(r'tag=(\S+)', detail)
             tag = m.group(1) if m else 'hostile'
@@ -1153,6 +1135,7 @@ def classify(case, detail, impl_lines):
         return 'crash'
     if 'nondeterministic' in detail: return 'nondeterministic'
     if 'syntax-error-location' in detail: return 'syntax-location'
+    if 'hostile-outcome' in detail: return 'hostile-outcome'
     if 'value-mismatch' in detail: return 'value-mismatch'
     return 'other'
 
